@@ -19,6 +19,7 @@ package parser
 import (
 	"strings"
 	"unicode"
+	"unicode/utf8"
 )
 
 func isNonSpace(r rune) bool {
@@ -151,9 +152,20 @@ func StripLeadingComments(sql string) string {
 
 // trimLeadingBlanks trims white space at both ends and, in front, the
 // semicolons of empty statements: the grammar skips them, ";/* c */ drop table t"
-// is a DROP
+// is a DROP. In front it reads a byte that is no valid UTF-8 the way the
+// scanner of the grammar does, as the character of that value: 0x85 and 0xA0
+// are white space there.
 func trimLeadingBlanks(sql string) string {
-	sql = strings.TrimLeftFunc(sql, func(r rune) bool { return r == ';' || unicode.IsSpace(r) })
+	for len(sql) > 0 {
+		r, w := utf8.DecodeRuneInString(sql)
+		if r == utf8.RuneError && w == 1 {
+			r = rune(sql[0])
+		}
+		if r != ';' && !unicode.IsSpace(r) {
+			break
+		}
+		sql = sql[w:]
+	}
 	return strings.TrimRightFunc(sql, unicode.IsSpace)
 }
 
